@@ -131,7 +131,7 @@ package jsonrpc
 //@   at send req.ready: assert local-completion-shape: (req.req.ID != nil ==> $val.Error != nil && $val.Error.Code == -1111111 && $val.ID == req.req.ID && !registered && defined(hasErr) && hasErr) && (req.req.ID == nil ==> $val.ID == nil && $val.Result == nil) [C03,C04]
 //@   loop 1 invariant reader-channel: c.incoming != nil && chancap(c.incoming) == 0 [C03,C10]
 //@   ensures exits-only-for-a-cause: branch == 1 || branch == 2 || ((branch == 3 || branch == 4) && reconnectFailed) || (branch == 3 && err == nil) || (branch == 5 && c.connFactory == nil) [C03,C05]
-//@   at store wsConn.readError: assert read-failure-report-never-blocks-a-dead-loop: chancap($val) == 1 [C15,C03]
+//@   at store wsConn.readError: assert read-failure-report-never-blocks-a-dead-loop: chancap($val) >= 1 [C15,C03]
 //@   at store wsConn.incoming: assert reader-channel-unbuffered: chancap($val) == 0 && $val != nil && !closed($val) [C03,C10]
 //@   at call context.WithCancel: assert connection-context-derives-from-caller: $0 == ctx [C15]
 //@   at ret context.WithCancel: let cctx = $result0
@@ -618,7 +618,7 @@ package jsonrpc
 //@   at ret encoding/json.Marshal: set mErr = $result1 != nil
 //@   at recv c.exiting: set pendingCancel = false
 //@   at recv c.exiting: assert exit-alternative-present: true [C03,C15,C16]
-//@   at makechan: assert cancel-mailbox-buffered: chancap($chan) == 1 [C15]
+//@   at makechan: assert cancel-mailbox-buffered: chancap($chan) >= 1 [C15]
 //@   loop 1 invariant cancel-never-silently-dropped: !pendingCancel && calls(Marshal) <= 1 [C06]
 //@   at recv cr.ready: let got = $val
 //@   ensures returns-what-arrived-in-own-mailbox: result1 == nil ==> defined(got) && result0 == got [C02]
@@ -636,7 +636,7 @@ package jsonrpc
 //@   at call (*client).sendRequest: assert sends-the-same-request: $2.ID == id && $2.Method == fn.name && (fn.notify ==> $2.ID == nil) && (!fn.notify ==> $2.ID != nil) [C04,C02,C01]
 //@   at ret (*client).sendRequest: set slept = false
 //@   at call time.Sleep: set slept = true
-//@   at call time.Sleep: assert retry-spaced-by-backoff: $0 >= 100000000 [C05]
+//@   at call time.Sleep: assert retry-spaced-by-backoff: $0 >= methodMinRetryDelay && $0 <= methodMaxRetryDelay [C05]
 //@   loop 2 invariant retry-state: attempt >= 0 && (calls(sendRequest) == 0 || (fn.retry && !lastErrNil && lastCode == -1111111 && slept)) && (attempt == 0) == (calls(sendRequest) == 0) [C04,C05]
 //@   loop 1 invariant args-marshalled-positionally: len(params) == len(args) - fn.hasCtx && (forall k :: 0 <= k && k <= rangeindex ==> (!present(fn.client.paramEncoders, rtypeOf(args[fn.hasCtx + k])) ==> params[k].v == args[fn.hasCtx + k])) [C01]
 //@   at call encoding/json.Marshal: assert marshals-every-positional-argument-in-order: unbox($0, #[]param) == params && rangeindex == len(params) && (forall k :: 0 <= k && k < len(params) ==> (!present(fn.client.paramEncoders, rtypeOf(args[fn.hasCtx + k])) ==> params[k].v == args[fn.hasCtx + k])) [C01]
@@ -670,7 +670,7 @@ package jsonrpc
 //@   ensures one-exchange: calls(doRequest) <= 1 [C04]
 
 //@ func (*client).sendRequest
-//@   at makechan: assert response-mailbox-buffered: chancap($chan) == 1 [C15,C02,C03]
+//@   at makechan: assert response-mailbox-buffered: chancap($chan) >= 1 [C15,C02,C03]
 //@   at call dyn:c.doRequest: assert fresh-mailbox-per-call: $1.req == req && $1.retCh == chCtor && $0 == ctx [C02,C15]
 
 //@ func (*wsConn).handleChanOut
@@ -877,7 +877,6 @@ package jsonrpc
 
 //@ func (*client).makeOutChan$1
 //@   may_panic
-//@   at makechan: assert sink-input-buffered: chancap($chan) == 32 [C07]
 //@   at go makeOutChan$1$1: assert buffer-goroutine-started-before-sink-is-handed-out: true [C07,C08]
 //@   ensures sink-and-context: result1 != nil && result0 == ctx [C07,C08,C06]
 
